@@ -27,14 +27,20 @@ Defs == <<
                         If(Bin("==", V("A"), I(2)), <<Let("W2", Bin("/", I(1), I(0)))>>, <<>>),
                         PrintS(<<Str("in8 "), V("W"), V("W2")>>)>>),
   Func("F10", <<"A">>, <<If(Bin("<", V("A"), I(0)), <<Return(NoExpr)>>, <<>>), PutS(<<Str("s"), V("A")>>), Return(V("A"))>>),
-  Func("F9", <<"A">>, <<For("K", I(1), V("A"), NoExpr, "auto", <<If(Bin("==", V("K"), I(2)), <<Return(V("K"))>>, <<>>)>>), Return(I(-1))>>)
+  Func("F9", <<"A">>, <<For("K", I(1), V("A"), NoExpr, "auto", <<If(Bin("==", V("K"), I(2)), <<Return(V("K"))>>, <<>>)>>), Return(I(-1))>>),
+  \* the error being handled is part of a call's private state too: read outside of any handler it is empty, whatever an earlier
+  \* call's handler did (completed, or raised another error)
+  Func("F11", <<"A">>, <<PutS(<<Str("["), Item(Call("error", <<>>), 1), Str("]")>>),
+                         If(Bin(">", V("A"), I(0)), <<Begin(<<RaiseS("E2")>>, <<When("E2", <<If(Bin(">", V("A"), I(1)), <<RaiseS("E3")>>, <<PutS(<<Str("h")>>)>>)>>)>>)>>, <<>>),
+                         PutS(<<Str("["), Item(Call("error", <<>>), 1), Str("]")>>), Return(V("A"))>>)
 >>
 
 CallPool == <<
   UCall("F1", <<I(1)>>), UCall("F1", <<I(0)>>), UCall("F2", <<I(1)>>), UCall("F2", <<I(2)>>),
   UCall("F3", <<I(2)>>), UCall("F4", <<I(3)>>), UCall("F4", <<I(2)>>), UCall("F6", <<I(1)>>), UCall("F6", <<I(1), I(2)>>),
   UCall("F7", <<V("TT")>>), UCall("F8", <<I(1)>>), UCall("F8", <<I(0)>>), UCall("F8", <<I(2)>>),
-  UCall("F9", <<I(3)>>), UCall("F9", <<I(1)>>), UCall("F10", <<I(-1)>>), UCall("F10", <<I(1)>>)
+  UCall("F9", <<I(3)>>), UCall("F9", <<I(1)>>), UCall("F10", <<I(-1)>>), UCall("F10", <<I(1)>>),
+  UCall("F11", <<I(0)>>), UCall("F11", <<I(1)>>), UCall("F11", <<I(2)>>)
 >>
 
 Guarded(c) == Begin(<<Let("R", c), PrintS(<<Str("="), V("R")>>)>>, <<When("OTHERS", <<PrintS(<<Str("err "), Item(Call("error", <<>>), 1)>>)>>)>>)
